@@ -857,6 +857,134 @@ def gshape_rule(rep, mod, T, anchors):
              '(e.g. "%#g" of 1.5 gives "1.5" instead of "1.50000")')
 
 
+def gstyle_rule(rep, mod):
+    """R-GSTYLE (%g, ISO C 7.21.6.1p8): with X the decimal exponent and P the effective precision, the exponent form is
+    chosen exactly when X < -4 or X >= P.  Decided on the two comparisons of the exponent cell (the cell whose magnitude the
+    exponent digit loop prints): their thresholds, normalised over the integer-valued exponent (X <= -5 is X < -4), and a
+    truth-table walk of the control flow between them and the merge that sets the exponent-form switch."""
+    f = mod.fn(FN)
+    w = where_fn(f)
+    # the exponent cell: the one printed through fmod(fabs(cell), base)
+    eps = set()
+    for (L, cell, st_, c) in digit_loops(f):
+        ai = f.inst_of(fstrip(f, c.ops[0]))
+        if ai is not None and ai.op == 'call' and (ai.callee or '').replace('llvm.', '').startswith('fabs'):
+            eps.add(cell.id)
+    if len(eps) != 1:
+        raise AnalysisBroken('%s: exponent cell not identified (%d candidates)' % (FN, len(eps)))
+    EP = f.insts[eps.pop()]
+    FLIP = {'olt': 'ogt', 'ogt': 'olt', 'ole': 'oge', 'oge': 'ole', 'ult': 'ugt', 'ugt': 'ult', 'ule': 'uge', 'uge': 'ule'}
+    consts, precs = [], []
+    for i in f.all_insts():
+        if i.op != 'fcmp' or i.pred[1:] not in ('lt', 'le', 'gt', 'ge'):
+            continue
+        cells = [cell_of_load(f, o) for o in i.ops]
+        side = [k for k in (0, 1) if cells[k] is not None and cells[k].id == EP.id]
+        if len(side) != 1:
+            continue
+        pred = i.pred if side[0] == 0 else FLIP[i.pred]
+        other = fstrip(f, i.ops[1 - side[0]])
+        if other.k == 'cf':
+            c = float(other.d['v'])
+            if c != int(c):
+                raise AnalysisBroken('%s: exponent compared with the non-integer constant %r at %s' % (FN, c, i.where()))
+            # true <=> (X < K) when pol, <=> (X >= K) otherwise
+            K, pol = {'lt': (c, True), 'le': (c + 1, True), 'ge': (c, False), 'gt': (c + 1, False)}[pred[1:]]
+            consts.append((i, int(K), pol))
+        elif any(any(o.k == 'arg' and o.argno == ROLE_PREC for o in x.ops) for x in value_slice(
+                f, other, ops=('sitofp', 'uitofp', 'trunc', 'zext', 'sext', 'add', 'sub', 'select', 'phi') + FCASTS, limit=60)):
+            # true <=> (X >= P + d) when pol, <=> (X < P + d) otherwise
+            d, pol = {'ge': (0, True), 'gt': (1, True), 'lt': (0, False), 'le': (1, False)}[pred[1:]]
+            precs.append((i, d, pol))
+    if len(consts) != 1 or len(precs) != 1:
+        raise AnalysisBroken('%s: expected one comparison of the exponent with a constant and one with the precision, found '
+                             '%d and %d (anchor changed)' % (FN, len(consts), len(precs)))
+    (C1, K, pol1), (C2, d, pol2) = consts[0], precs[0]
+    ok = K == -4
+    rep.inst('R-GSTYLE', FN, 'exponent form below X < -4', ok, C1.where(),
+             None if ok else 'the lower threshold of the exponent form is X < %d: ISO C uses style e exactly when X < -4 (or X >= P); '
+             'e.g. %%g of %s must print as %s' % (K, '0.0001234' if K > -4 else '0.00001234', '0.0001234' if K > -4 else '1.234e-05'),
+             fact={'threshold': K})
+    ok = d == 0
+    rep.inst('R-GSTYLE', FN, 'exponent form from X >= P', ok, C2.where(),
+             None if ok else 'the upper threshold of the exponent form is X >= P + %d: ISO C uses style e exactly when X >= P (or X < -4); '
+             'e.g. %%g of 1e6 (P = 6) must print as 1e+06' % d, fact={'offset': d})
+
+    def ev(v, asg):
+        if v.k == 'ci':
+            return bool(v.uval)
+        i = f.inst_of(v)
+        if i is None:
+            return None
+        if i.id in asg:
+            return asg[i.id]
+        if i.op in ('and', 'or', 'xor') and i.bits == 1:
+            a, b = ev(i.ops[0], asg), ev(i.ops[1], asg)
+            if i.op == 'and':
+                return False if (a is False or b is False) else (True if (a and b) else None)
+            if i.op == 'or':
+                return True if (a is True or b is True) else (False if (a is False and b is False) else None)
+            return None if (a is None or b is None) else (a != b)
+        if i.op == 'select' and i.bits == 1:
+            c = ev(i.ops[0], asg)
+            return None if c is None else ev(i.ops[1] if c else i.ops[2], asg)
+        return None
+    first = C1 if f.dominates(C1, C2) else C2
+    J = f.ipdom.get(first.block)
+    if J is None or J == '<root>':
+        raise AnalysisBroken('%s: no merge point behind the exponent tests' % FN)
+    table = {}
+    for a1 in (False, True):
+        for a2 in (False, True):
+            asg = {C1.id: a1, C2.id: a2}
+            b, prev = first.block, None
+            for _ in range(12):
+                if b is J:
+                    break
+                t = b.term
+                if t.op != 'br':
+                    raise AnalysisBroken('%s: unexpected terminator between the exponent tests and their merge' % FN)
+                if 'f' in t.d:
+                    c = ev(t.ops[0], asg)
+                    if c is None:
+                        raise AnalysisBroken('%s: a branch between the exponent tests and their merge depends on something else '
+                                             '(%s)' % (FN, t.where()))
+                    prev, b = b, f.bmap[t.d['t'] if c else t.d['f']]
+                else:
+                    prev, b = b, b.succs[0]
+            if b is not J:
+                raise AnalysisBroken('%s: merge of the exponent tests not reached' % FN)
+            table[(a1, a2)] = prev
+    sw = None
+    for ph in [i for i in J.insts if i.op == 'phi' and i.ty.get('k') == 'int']:
+        inc = {bb: v for (bb, v) in ph.incoming}
+        vals = {k: inc.get(pv.name) for k, pv in table.items()}
+        if any(v is not None and v.k == 'ci' and v.ival != 0 for v in vals.values()):
+            sw = (ph, vals)
+    sel = None
+    if sw is None:
+        for i in f.all_insts():
+            if i.op == 'select' and i.ty.get('k') == 'int' and i.bits > 1 and i.ops[1].k == 'ci' and i.ops[1].ival != 0 and \
+                    all(ev(i.ops[0], {C1.id: a1, C2.id: a2}) is not None for a1 in (0, 1) for a2 in (0, 1)):
+                sel = i
+    if sw is None and sel is None:
+        raise AnalysisBroken('%s: the value switched by the exponent tests was not found' % FN)
+    bad = []
+    for a1 in (False, True):
+        for a2 in (False, True):
+            want = (a1 == pol1) or (a2 == pol2)          # X < K  or  X >= P + d
+            if sw is not None:
+                v = sw[1][(a1, a2)]
+                got = v is not None and v.k == 'ci' and v.ival != 0
+            else:
+                got = ev(sel.ops[0], {C1.id: a1, C2.id: a2})
+            if got != want:
+                bad.append('%s and %s -> %s' % ('X < %d' % K if a1 == pol1 else 'X >= %d' % K,
+                                                 'X >= P' if a2 == pol2 else 'X < P', 'exponent form' if got else 'unchanged'))
+    rep.inst('R-GSTYLE', FN, 'exponent form exactly when X < -4 or X >= P', not bad, (sw[0] if sw else sel).where(),
+             None if not bad else 'the exponent-form switch disagrees with ISO C for: ' + '; '.join(bad))
+
+
 def zero_fill_counts(f):
     """initial counts of the count-down loops that emit the constant '0' and come after a loop emitting bytes of a local
     array (the buffered digits)"""
@@ -958,8 +1086,8 @@ def run(rep, repo, tier):
         'whole value (R-ROUND); %g takes back zero digits after the rounding and honours # (R-GSHAPE); every loop condition can '
         'change inside its loop (R-LOOPVAR). NOT decided: the numerical value of the printed digits (that the text parsed back '
         'lies within half a unit of the last digit: a property of run-time values and of the accumulated rounding error of '
-        'repeated division / multiplication by ten), the choice between fixed and exponent notation of %g and its significant-'
-        'digit count, correctness of the exponent value, int overflow of width / precision near INT_MAX, the %a conversion.')
+        'repeated division / multiplication by ten), the significant-digit count of %g (the choice between fixed and exponent notation is decided by R-GSTYLE from the '
+        'exponent the code computed), correctness of the exponent value, int overflow of width / precision near INT_MAX, the %a conversion.')
     rep.assumptions += [
         'IEEE-754 binary64 double, x86_fp80 long double, round-to-nearest; modf, fmod, fabs, round, ceil, floor are exact as ISO C '
         'requires; log10 and pow of the C library are accurate to %d ulps' % c13_fv.LIBM_SLACK,
@@ -984,6 +1112,8 @@ def run(rep, repo, tier):
     prefix_rule(rep, mod)
     anchors = round_rule(rep, mod)
     gshape_rule(rep, mod, T, anchors)
+    gstyle_rule(rep, mod)
+    rep.floor('R-GSTYLE', 3)
     runs, facts = fi_rules(rep, mod, T, fams)
     sx_rules(rep, mod, T, fams, facts)
     for rule, n in (('R-CONVSET', 36), ('R-FVAARG', 3), ('R-LOOPVAR', 10), ('R-UPPER', 4), ('R-PREFIX', 1), ('R-ROUND', 5),
